@@ -129,6 +129,11 @@ def harnesses(ctx) -> List[H]:
             hs.append(mk(f"c18_textflags_{name}", flag_args, [p for p in pre if any(v in p for v in ("ai", "ap"))],
                          f"{fixed}\nreturn text_ok({expr})", timeout=120, group="text-flags", tier="quick",
                          covers="eval(repr(e)) == e for every combination of presence flags (holes fixed: n=3, a=1, b=2, s='ab', c=[1, True], d=0)"))
+    for name in ("integer", "string", "array", "anyof", "not", "element_props", "element_object", "nested"):
+        args, pre, expr = ELEMS[name]
+        flag_args = ", ".join(a.strip() for a in args.split(",") if a.strip().endswith(": bool"))
+        hs.append(mk(f"c18_after_use_{name}", flag_args or "z: bool", [], f"n = 3; a = 1; b = 2; s = 'ab'; c = [1, True]; d = 0; m = 2; src = 1\nreturn after_use_ok({expr})", timeout=120, group="after-use",
+                     covers="eval(repr(e)) == e after e has validated eight values (holes fixed, flags symbolic)"))
     # property wrappers
     hs.append(mk("c18_property_in_owner", "r: bool, src: int, n: int", ["0 <= src <= 2"],
                  "return prop_ok(Property(Integer(minimum=n), required=r, source=(None, 'a', 'other')[src]), 'a')", timeout=60, group="property", expect="unknown"))
@@ -151,6 +156,15 @@ def shared_wrapper_ok(r, n, same_name):
     a = Element(properties={"name": p})
     b = Element(properties={("name" if same_name else "title"): p}, maxProperties=n)
     return text_ok(a) and text_ok(b) and args_ok(a) and args_ok(b)
+
+
+def after_use_ok(e):
+    """repr round trip of an element that has already validated values (accepted and rejected)"""
+    from vf.common import accepts
+
+    for v in (0, "x", None, [1, "a"], {"a": 1}, {}, [], True):
+        accepts(e, v)
+    return text_ok(e) and args_ok(e)
 
 
 def text_ok_prop(p):
